@@ -39,9 +39,9 @@ def relayout(stmts, r):
 
 
 def make_jobs(tier, seed):
-    k = 30 if tier == 'quick' else 240
+    k = 30 if tier == 'quick' else 160
     jobs = [('ex', seed, tier)]
-    jobs += [('j', seed * 1000003 + i, 4, 5 if tier == 'quick' else 8) for i in range(k)]
+    jobs += [('j', seed * 1000003 + i, 4, 5 if tier == 'quick' else 7) for i in range(k)]
     return jobs
 
 
